@@ -5,6 +5,7 @@ import (
 	"os"
 	"sort"
 	"strings"
+	"sync"
 	"time"
 
 	"github.com/nats-io/nats.go"
@@ -32,6 +33,7 @@ type c02Cfg struct {
 	Ops      int
 	PreSync  bool
 	Restarts bool
+	Phased   bool
 }
 
 type syncHarness struct {
@@ -327,6 +329,13 @@ func runC02(s *Sim) {
 		wl.Raw()
 	}
 	cfg.PreSync = wl.Chance(1, 2)
+	// While finding F-C02-delete-not-synced is open the free-form workload issues no delete/undelete.  One run in three is
+	// a phased history instead, which stays outside the finding's region: deletions are only made while the link is up
+	// and has settled (they travel in real time), the outage that follows sees writes and *un*deletions on either side,
+	// and catch-up has to bring those across.
+	if !fenceOpen("c02-delete") && wl.Chance(1, 3) {
+		cfg.Phased, cfg.PreSync, cfg.Faults = true, true, 0
+	}
 	s.DelayPM = cfg.DelayPM
 	up := s.NewInstance("up", "")
 	down := s.NewInstance("down", "")
@@ -385,10 +394,127 @@ func runC02(s *Sim) {
 		a.Add(name, fn)
 	}
 	nid := 0
+	partitioned := false
+	disabled := false
+	upDown := false
+	if cfg.Phased {
+		s.Probe("phased history (delete with the link up, undelete during an outage)")
+		var bar [8]int
+		var barMu sync.Mutex
+		barrier := func(k int) {
+			for _, a := range []*Actor{actD, actU} {
+				add(a, fmt.Sprintf("barrier %d", k), func() {
+					barMu.Lock()
+					bar[k]++
+					barMu.Unlock()
+					for {
+						barMu.Lock()
+						n := bar[k]
+						barMu.Unlock()
+						if n >= 2 {
+							return
+						}
+						time.Sleep(200 * time.Millisecond)
+					}
+				})
+			}
+		}
+		pick := func() *Actor {
+			if wl.Chance(1, 2) {
+				return actU
+			}
+			return actD
+		}
+		settle := time.Duration(2*cfg.Period+3) * time.Second
+		// phase A: nodes directly under the device, created on either side, a few writes
+		nNodes := 1 + wl.Draw(3)
+		var ids []string
+		for i := 0; i < nNodes; i++ {
+			a := pick()
+			nid++
+			id := fmt.Sprintf("n%d", nid)
+			ids = append(ids, id)
+			add(a, fmt.Sprintf("create %s under %s", id, dev), func() {
+				t := stamp()
+				_ = client.SendNode(a.Nc, data.NodeEdge{ID: id, Parent: dev, Type: "variable",
+					Points:     data.Points{{Type: "description", Text: id, Time: t}},
+					EdgePoints: data.Points{{Type: data.PointTypeTombstone, Value: 0, Time: stamp()}}}, a.Name)
+			})
+		}
+		for _, a := range []*Actor{actD, actU} {
+			add(a, fmt.Sprintf("sleep %s (transfer)", settle), func() { time.Sleep(settle) })
+		}
+		barrier(0)
+		// deletions while the link is up: each on one side, then time to travel
+		var deleted []string
+		for _, id := range ids {
+			if wl.Chance(2, 3) {
+				a := pick()
+				id := id
+				deleted = append(deleted, id)
+				add(a, fmt.Sprintf("delete %s/%s (link up)", dev, id), func() {
+					_ = client.SendEdgePoint(a.Nc, id, dev, data.Point{Type: data.PointTypeTombstone, Value: 1, Time: stamp(), Origin: a.Name}, true)
+				})
+			}
+		}
+		for _, a := range []*Actor{actD, actU} {
+			add(a, "sleep 3s (deletions travel)", func() { time.Sleep(3 * time.Second) })
+		}
+		barrier(1)
+		// phase B: outage
+		kind := wl.Draw(2)
+		add(actD, []string{"outage: sync disabled", "outage: link down"}[kind], func() {
+			if kind == 0 {
+				disabled = true
+				s.Fault("sync-disable")
+				_ = client.SendNodePoint(setup, "sync1", data.Point{Type: data.PointTypeDisabled, Value: 1, Origin: "web", Time: stamp()}, true)
+			} else {
+				partitioned = true
+				s.Fault("link-down")
+				s.W.SetPartitioned("up", true)
+			}
+			time.Sleep(time.Second)
+		})
+		barrier(2)
+		for _, id := range deleted {
+			if wl.Chance(3, 4) {
+				a := pick()
+				id := id
+				add(a, fmt.Sprintf("undelete %s/%s (during the outage)", dev, id), func() {
+					_ = client.SendEdgePoint(a.Nc, id, dev, data.Point{Type: data.PointTypeTombstone, Value: 0, Time: stamp(), Origin: a.Name}, true)
+				})
+				if wl.Chance(1, 2) {
+					v := float64(nOps)
+					add(a, fmt.Sprintf("points %s value=%v (during the outage)", id, v), func() {
+						_ = client.SendNodePoints(a.Nc, id, data.Points{{Type: "value", Value: v, Time: stamp(), Origin: a.Name}}, true)
+					})
+				}
+			}
+		}
+		for _, id := range ids {
+			if wl.Chance(1, 3) {
+				live := true
+				for _, d := range deleted {
+					live = live && d != id
+				}
+				if !live {
+					continue
+				}
+				a := pick()
+				id := id
+				v := float64(nOps) + 0.25
+				add(a, fmt.Sprintf("points %s value=%v (during the outage)", id, v), func() {
+					_ = client.SendNodePoints(a.Nc, id, data.Points{{Type: "value", Value: v, Time: stamp(), Origin: a.Name}}, true)
+				})
+			}
+		}
+		barrier(3)
+		// phase C: the outage ends; the common tail heals whatever is still broken, waits for stability and compares
+	}
 	allowDelete := fenceOpen("c02-delete")
 	allowUpCreate := fenceOpen("c02-up-create")
 	allowEdgePts := fenceOpen("c02-edge-points")
-	for wl.More(10) {
+	for !cfg.Phased && wl.More(10) {
 		side := actD
 		if wl.Chance(1, 2) {
 			side = actU
@@ -461,9 +587,6 @@ func runC02(s *Sim) {
 
 	// --- faults -------------------------------------------------------------------------------
 	faultsLeft := cfg.Faults
-	partitioned := false
-	disabled := false
-	upDown := false
 	s.FaultEvents = func() []SimEvent {
 		if s.workloadDone() {
 			return nil
